@@ -3,11 +3,17 @@ import BreezyVerif.Model.C01
 /-
 C01 driver.
 
-  commit <strict|lax> <sel> <excl> <basis> <wt>      -> ok <ids> <tree> <wt ids> <missing ids> | E:PathsNotVersioned:<paths> | E:InconsistentDelta | E:fuel
+  commit <strict|lax> <merges T|F> <sel> <excl> <basis> <wt>
+                                        -> ok <ids> <tree> <wt ids> <missing ids> | E:PathsNotVersioned:<paths> | E:InconsistentDelta
+                                           | E:CannotCommitSelectedFileMerge | E:fuel
   from   <strict|lax> <ids> <basis> <wt> -> the same, for an explicit list of recorded ids
   ids    <sel> <excl> <basis> <wt>      -> the ids of the change stream after exclusion | E:…
   git    <sel> <excl> <changes> <basis> <wt>  -> <gtree>
-  fault  <stage|~> <revs> <tip|~> <new> -> <raised T|F> <revs> <tip|~> <basis|~> <inGroup T|F>
+  fault  <point|~> <bound T|F> <ntexts> <revs> <tip|~> <mrevs> <mtip|~> <new>
+                                        -> <raised T|F> <revs> <tip|~> <basis|~> <inGroup T|F> <mrevs> <mtip|~> <new inventories> <new texts>
+           point = op[+]  (`+`: the fault is raised after the operation's effect), op = startGroup | text:<j> | pointless |
+                   finishInv | message | addRev | commitGroup | preHook | masterImport | setTip | mergeTags | unversion |
+                   updateBasis | postHook
 
 tree    = entries joined by `;` (`-` = empty tree), entry = `id:parent:name:kind:content:exec`
           (parent `~` for the root, name `.` for the empty name, kind f|d|l and, in <wt> only,
@@ -83,6 +89,7 @@ def showErr : CErr → String
   | .inconsistentDelta => "E:InconsistentDelta"
   | .rootMissing => "E:RootMissing"
   | .fuel => "E:fuel"
+  | .selectedFileMerge => "E:CannotCommitSelectedFileMerge"
 
 def showResult : Except CErr Result → String
   | .error e => showErr e
@@ -129,18 +136,39 @@ def showGEntry (x : Path × Node) : Option String :=
 def showGTree (t : GTree) : String :=
   joinWith ";" (sortStrings ((t.map (·.1)).eraseDups.filterMap fun p => (glookup t p).bind fun n => showGEntry (p, n)))
 
-def parseStage (s : String) : Option (Option Stage) :=
-  match s with
-  | "~" => some none
-  | "collect" => some (some .collect)
-  | "finishInv" => some (some .finishInv)
-  | "message" => some (some .message)
-  | "builderCommit" => some (some .builderCommit)
-  | "preHook" => some (some .preHook)
-  | "setTip" => some (some .setTip)
-  | "updateBasis" => some (some .updateBasis)
-  | "postHook" => some (some .postHook)
+def parseOp (s : String) : Option Op :=
+  match s.splitOn ":" with
+  | ["text", j] => j.toNat?.map fun j => Op.addText s!"t{j}"
+  | [s] =>
+    match s with
+    | "startGroup" => some .startGroup
+    | "pointless" => some .checkPointless
+    | "finishInv" => some .addInv
+    | "message" => some .message
+    | "addRev" => some .addRev
+    | "commitGroup" => some .commitGroup
+    | "preHook" => some .preHook
+    | "masterImport" => some .masterImport
+    | "setTip" => some .setTip
+    | "mergeTags" => some .mergeTags
+    | "unversion" => some .unversion
+    | "updateBasis" => some .updateBasis
+    | "postHook" => some .postHook
+    | _ => none
   | _ => none
+
+/-- `~` = no fault; otherwise the index of the named operation in the program
+(`none` inside: the program does not contain it) -/
+def parseFault (s : String) (prog : List Op) : Option (Option Fault) :=
+  if s == "~" then some none else
+  let after := s.endsWith "+"
+  let name := if after then (s.dropEnd 1).toString else s
+  match parseOp name with
+  | none => none
+  | some op =>
+    match prog.findIdx? (· == op) with
+    | none => none
+    | some k => some (some ⟨k, after⟩)
 
 def parseValidation (s : String) : Option Validation :=
   if s == "strict" then some .strict else if s == "lax" then some .lax else none
@@ -150,10 +178,10 @@ def showOptS : Option String → String
   | some s => s
 
 def handle : List String → String
-  | ["commit", v, sel, excl, basis, wt] =>
-    match parseValidation v, parseSel sel, parsePaths excl, parseTree basis, parseWT wt with
-    | some v, some sel, some excl, some basis, some wt => showResult (commitModel v basis wt sel excl)
-    | _, _, _, _, _ => "bad-op"
+  | ["commit", v, m, sel, excl, basis, wt] =>
+    match parseValidation v, parseBool m, parseSel sel, parsePaths excl, parseTree basis, parseWT wt with
+    | some v, some m, some sel, some excl, some basis, some wt => showResult (commitModelM m v basis wt sel excl)
+    | _, _, _, _, _, _ => "bad-op"
   | ["ids", sel, excl, basis, wt] =>
     match parseSel sel, parsePaths excl, parseTree basis, parseWT wt with
     | some sel, some excl, some basis, some wt =>
@@ -170,14 +198,21 @@ def handle : List String → String
     match parseSel sel, parsePaths excl, parseGChanges cs, parseGTree basis, parseGTree wt with
     | some sel, some excl, some cs, some basis, some wt => showGTree (gitCommitTree basis wt cs sel excl)
     | _, _, _, _, _ => "bad-op"
-  | ["fault", st, revs, tip, new] =>
-    match parseStage st, parseIds revs with
-    | some st, some revs =>
+  | ["fault", pt, bound, ntexts, revs, tip, mrevs, mtip, new] =>
+    match parseBool bound, ntexts.toNat?, parseIds revs, parseIds mrevs with
+    | some bound, some n, some revs, some mrevs =>
       if new.isEmpty || new == "~" then "bad-op" else
-      let tip := if tip == "~" then none else some tip
-      let (s, raised) := runCommit new st ⟨revs, [], false, tip, tip⟩
-      " ".intercalate [showBool raised, joinWith "," s.revs, showOptS s.tip, showOptS s.basis, showBool s.inGroup]
-    | _, _ => "bad-op"
+      let texts := (List.range n).map fun j => s!"t{j}"
+      match parseFault pt (program texts bound) with
+      | none => "bad-op"
+      | some f =>
+        let tip := if tip == "~" then none else some tip
+        let mtip := if mtip == "~" then none else some mtip
+        let s0 : PState := ⟨revs, revs, [], [], [], [], false, tip, mrevs, mtip, tip⟩
+        let (s, raised) := runCommit new texts bound f s0
+        " ".intercalate [showBool raised, joinWith "," s.revs, showOptS s.tip, showOptS s.basis, showBool s.inGroup,
+          joinWith "," s.mrevs, showOptS s.mtip, toString (s.invs.length - revs.length), toString s.texts.length]
+    | _, _, _, _ => "bad-op"
   | _ => "bad-op"
 
 end BreezyVerif.C01
